@@ -53,6 +53,5 @@ package diskfs
 //@ func (*Filespace).Lstat [C03 C02]
 //@   at_call os.*,ioutil.*,disk.*,NewFilespace requires Confined(fs.path, $arg)
 
-
 //@ type Filespace
 //@   field path immutable
